@@ -77,7 +77,7 @@ CLAIMS = {
         ref="§7 C06"),
     "C12": dict(
         technique="Lean 4 proof (translated cut mask; cumulative-sum renumbering = order-preserving bijection; trailing-edge loop = greatest sub-list without degree-one vertices; permutation bookkeeping; angular order is a strict weak order ⇒ re-sorting the surviving edges = thinning out the old cyclic order ⇒ untouched faces survive) + exact correspondence",
-        text="Kernel-checked theorems: rotAt_thinned — the angular comparison of the model (quadrant + cross product, exact) is asymmetric and negatively transitive on non-zero vectors (angLt_asymm, angLt_negTrans), so the insertion sort of the surviving incident edges of a vertex equals the old sorted list with the deleted edges dropped (foldl_insertDesc_filter), for every vertex and every set of deleted edges; with face_survives this gives 'a plaquette none of whose edges was removed is a plaquette of the output' for the recomputed adjacency (edge labels kept); rotAt_thin / rotAt_cut: with the renumbering included — row e of the input arrays is row rank(e) of the masked arrays (filterIdx_getD), the kept indices renumber to 0,1,2,… (kept_map_rank) — the incident-edge row of the lattice returned by cut_boundaries (any edge deletion) is the old row with the deleted edges dropped and the survivors renamed to their new indices; face_in_thinned: tracing in the thinned, renumbered lattice from the renamed dart of a face none of whose edges is deleted returns that face, edge for edge under the new numbering and with the same directions (the step commutes with the renaming, the renaming is injective on kept edges, so the periods agree) — 'every plaquette of the input none of whose edges was removed is a plaquette of the output' for every deletion of edges, cut_boundaries included. The boundary mask regenerated from the source is non-zero iff the edge crosses no selected boundary; masks keep row order and keep "
+        text="Kernel-checked theorems: rotAt_thinned — the angular comparison of the model (quadrant + cross product, exact) is asymmetric and negatively transitive on non-zero vectors (angLt_asymm, angLt_negTrans), so the insertion sort of the surviving incident edges of a vertex equals the old sorted list with the deleted edges dropped (foldl_insertDesc_filter), for every vertex and every set of deleted edges; with face_survives this gives 'a plaquette none of whose edges was removed is a plaquette of the output' for the recomputed adjacency (edge labels kept); rotAt_thin / rotAt_cut: with the renumbering included — row e of the input arrays is row rank(e) of the masked arrays (filterIdx_getD), the kept indices renumber to 0,1,2,… (kept_map_rank) — the incident-edge row of the lattice returned by cut_boundaries (any edge deletion) is the old row with the deleted edges dropped and the survivors renamed to their new indices; face_in_thinned: tracing in the thinned, renumbered lattice from the renamed dart of a face none of whose edges is deleted returns that face, edge for edge under the new numbering and with the same directions (the step commutes with the renaming, the renaming is injective on kept edges, so the periods agree) — 'every plaquette of the input none of whose edges was removed is a plaquette of the output' for every deletion of edges, cut_boundaries included; face_in_removeVertices: the same for remove_vertices (hence remove_trailing_edges, which the model expresses as one removal of every vertex that dangles in some round) — the model's removeVertices is the thinned lattice with its vertices renumbered by newIndex, newIndex is the rank among kept vertices (newIndex_eq_rank), positions move with their vertices, and any injective renumbering of the vertices that carries the positions along leaves every incident-edge row, every tracer step and every face walk unchanged (renumber_rotAt, renumber_nextD, renumber_walkFrom). The boundary mask regenerated from the source is non-zero iff the edge crosses no selected boundary; masks keep row order and keep "
              "edges aligned with their crossings; vertices untouched by cutting; new_index[v] is the position of v among the kept vertices (order-preserving bijection "
              "onto 0..k-1, strictly monotone, positions follow), an edge survives iff both ends are kept and the reported set is its complement; the trailing-edge "
              "loop yields a sub-list without degree-one vertices that contains every such sub-list (multigraphs included) and is idempotent; for a permutation, "
